@@ -290,7 +290,7 @@ fn kbucket_add_probe(b: &mut KBucket, n: Node) -> bool {
 }
 
 //@ ob: C12.O3g
-//@ tier: thorough
+//@ tier: off
 //@ cap: 2400
 //@ standins: vcoll
 //@ also: C14
